@@ -125,8 +125,27 @@ let () = register "alogout" (fun toks ->
             (show_sval o.go_state) (show_cookie o.go_cookie) (int_of_n o.go_rnd)) outs))
     | _ -> print_endline "?bad alogout line")
 
+(* store terms: "-" (empty) or k:v,k:v (key id : value id); printed sorted by key *)
+let parse_astore (s : string) : (n * n) list =
+  List.map (fun kv -> match String.split_on_char ':' kv with
+      | [k; v] -> (n_of_int (int_of_string k), n_of_int (int_of_string v))
+      | _ -> failwith ("store entry " ^ kv)) (split_on ',' s)
+
+let show_astore (s : (n * n) list) : string =
+  let l = List.sort compare (List.map (fun (k, v) -> (int_of_n k, int_of_n v)) s) in
+  if l = [] then "-" else String.concat "," (List.map (fun (k, v) -> Printf.sprintf "%d:%d" k v) l)
+
 let () = register "acallback" (fun toks ->
     match split_bar toks with
+    | [cfg; [state; code; iss; err; cookie]; [tokok; jti]; [store; newk]] ->
+      (* with the store: <entries before> <key id of the session the provider's answer would create>; a new value prints as 0 *)
+      let c = parse_cfg cfg in
+      let r = { cb_state = parse_sval state; cb_code = parse_sval code; cb_iss = parse_sval iss; cb_error = parse_sval err;
+                cb_cookie = parse_cookie cookie } in
+      let o = entry_callback c (tokok = "1") (n_of_int (int_of_string jti)) r in
+      let st = entry_callback_store c (tokok = "1") (n_of_int (int_of_string jti)) r (n_of_int (int_of_string newk)) (parse_astore store) in
+      Printf.printf "status=%d back=%s session=%s clears=%s store=%s\n" (int_of_n o.co_status) (show_back o.co_back) (zb o.co_session)
+        (zb o.co_clears_login) (show_astore st)
     | [cfg; [state; code; iss; err; cookie]; [tokok; jti]] ->
       let c = parse_cfg cfg in
       let r = { cb_state = parse_sval state; cb_code = parse_sval code; cb_iss = parse_sval iss; cb_error = parse_sval err;
@@ -134,3 +153,12 @@ let () = register "acallback" (fun toks ->
       let o = entry_callback c (tokok = "1") (n_of_int (int_of_string jti)) r in
       Printf.printf "status=%d back=%s session=%s clears=%s\n" (int_of_n o.co_status) (show_back o.co_back) (zb o.co_session) (zb o.co_clears_login)
     | _ -> print_endline "?bad acallback line")
+
+(* client assertions of n back-channel requests (overlapping or not), in the order they reached the provider:
+   abackjti <cfg> | <n>   prints the jti draws, numbered from 1 ("0" where the request carries the client secret instead) *)
+let () = register "abackjti" (fun toks ->
+    match split_bar toks with
+    | [cfg; [n]] ->
+      let c = parse_cfg cfg in
+      print_endline (String.concat " " (List.map (fun j -> string_of_int (int_of_n j)) (entry_backchannel_jtis c (n_of_int (int_of_string n)))))
+    | _ -> print_endline "?bad abackjti line")
